@@ -14,7 +14,7 @@ def parseLine (d : DState) (line : String) : Except String DState :=
     match tag with
     | "H" =>
       .ok { d with hist := String.intercalate " " rest, step := 0, st := none,
-                   shadow := ⟨[], []⟩, feeTracked := true, lastMig := none, pend := {}, roles := none }
+                   shadow := ⟨[], []⟩, feeTracked := true, lastMig := none, pend := {}, roles := none, carried := [] }
     | "E" =>
       match run (do
           let contract ← str
